@@ -1583,6 +1583,17 @@ def run(ctx):
     for r in pmap('harness.props.c10', 'shard', [(ctx.seed, i, per, ctx.tier) for i in range(nsh)]):
         res.merge(r)
     variant = tuple(code_variant())
+    # corpus first: minimised past disagreements between the model and the code
+    import glob, os
+    root = os.path.dirname(os.path.dirname(os.path.dirname(os.path.abspath(__file__))))
+    corpus = []
+    for f in sorted(glob.glob(os.path.join(root, 'corpus', 'C10', '*.json'))):
+        with open(f) as fh:
+            c = json.load(fh)
+        c.pop('why', None)
+        corpus.append(c)
+    if corpus:
+        compare_model(corpus, res, variant, stream='corpus')
     res.notes.append('code variant probed: callCopies=%s extractCopies=%s' % variant)
     mper = ctx.n(40, 600)
     for r in pmap('harness.props.c10', 'model_shard', [(ctx.seed, i, mper, variant) for i in range(nsh)]):
